@@ -650,6 +650,49 @@ Proof. intros P m H; apply FAc_FA, NA_FAc, H. Qed.
 Lemma NA_stored_rows : forall d, NA (ev (stored_rows d)).
 Proof. intro d; apply NA_ev, NA_upd; neutral. Qed.
 
+(* actions that touch neither tables nor files nor stacks (a lookup behind a boundary, the cache load): the precondition of
+   what follows survives them *)
+Definition Silent (m0 : act) : Prop := forall s s1 r1, m0 s = (s1, r1) ->
+  Mono s s1 /\ cur s1 = cur s /\ fs s1 = fs s /\ ext s1 = ext s /\ ptr s1 = ptr s.
+
+Lemma Silent_ev_guard : forall b, Silent (ev (guard b)).
+Proof.
+  intros b s s1 r1 H. unfold ev, guard in H. destruct (tick s) as [s2 t] eqn:T. tk T.
+  assert (M0 : Mono s (set_fuse x s)) by (apply Mono_set_fuse; intro F; apply TN; auto).
+  destruct t; [|destruct (b (set_fuse x s))]; inversion H; subst; simpl; (split; [exact M0 | repeat split; auto]).
+Qed.
+
+Lemma Silent_load_dc : Silent load_dc.
+Proof.
+  intros s s1 r1 E. unfold load_dc in E. destruct (dcache s).
+  - inversion E; subst. split; [apply Mono_refl | repeat split; auto].
+  - unfold ev, upd in E. destruct (tick s) as [s2 b] eqn:T. tk T.
+    assert (M0 : Mono s (set_fuse x s)) by (apply Mono_set_fuse; intro F; apply TN; auto).
+    destruct b; inversion E; subst; simpl.
+    + split; [exact M0 | repeat split; auto].
+    + split; [apply (Mono_trans _ (set_fuse x s)); [exact M0 | apply Mono_of; reflexivity] | repeat split; auto].
+Qed.
+
+Lemma FA_after_silent : forall P m0 m, Silent m0 -> FA P m -> FA P (m0 ;; m).
+Proof.
+  intros P m0 m H0 Hm s s' r H. unfold bind in H. destruct (m0 s) as [s1 r1] eqn:E.
+  destruct (H0 _ _ _ E) as (M1 & C1 & F1 & X1 & P1).
+  destruct r1.
+  - destruct (Hm _ _ _ H) as (M2 & K2). split; [eapply Mono_trans; eauto|].
+    intros l rest Pt0 O Pz CF.
+    assert (O1 : no_orphan s1) by (apply (no_orphan_of s); auto).
+    assert (Pz1 : holds P s1) by (unfold holds in *; rewrite C1, F1, X1; exact Pz).
+    destruct (K2 l rest (eq_trans P1 Pt0) O1 Pz1 CF) as (O2 & l' & Q1 & Q2).
+    split; [exact O2|]. exists l'. split; [exact Q1|].
+    intros t Ft Et. destruct (Q2 t Ft Et) as (A & B). rewrite <- F1, <- X1. auto.
+  - inversion H; subst. split; [exact M1|]. intros l rest Pt0 O _ _.
+    split; [apply (no_orphan_of s); auto|]. exists []. split; [rewrite P1; exact Pt0|].
+    apply restores_nil; [rewrite F1 | rewrite X1]; apply feq_refl.
+Qed.
+
+Lemma Silent_refuse_held : forall d, Silent (refuse_held shipped d).
+Proof. intro d. unfold refuse_held; simpl. apply Silent_ev_guard. Qed.
+
 Lemma FAc_put : forall d v, FAc PT (exec_op shipped (Put d v)).
 Proof.
   intros d v; simpl; unfold do_put. apply FAc_butler_txn.
@@ -664,8 +707,9 @@ Lemma FAc_ingest : forall mo d, FAc PT (exec_op shipped (Ingest mo d)).
 Proof.
   intros mo d; simpl; unfold do_ingest. apply FAc_butler_txn.
   - apply FA_bind; [apply FA_of_NA, NA_load_dc|]. apply FA_fresh. apply FA_guard_pre. apply FAc_FA, FAc_with_ds.
+    apply FA_after_silent; [apply Silent_refuse_held|].
     apply FA_bind; [apply FA_transfer | apply FA_of_NA, NA_stored_rows].
-  - repeat first [ apply WB_bind | apply WB_ev | apply WB_ret | apply WB_guard | apply WB_with_ds | apply WB_transfer
+  - repeat first [ apply WB_refuse_held | apply WB_bind | apply WB_ev | apply WB_ret | apply WB_guard | apply WB_with_ds | apply WB_transfer
                  | apply WB_load_dc | apply WB_stored_rows | (apply WB_upd; keeps) ].
 Qed.
 
